@@ -1,7 +1,8 @@
 (* C09 — script-integrity and auxiliary-data hashes: executable model of
      rust/src/utils.rs:599-641                      hash_auxiliary_data, hash_script_data
-     rust/src/protocol_types/plutus/plutus_data.rs  PlutusData (identity = derived Ord on (datum, original_bytes); to_bytes =
-                                                    original bytes when kept), PlutusList { elems, definite_encoding }:
+     rust/src/protocol_types/plutus/plutus_data.rs  PlutusData (class under the derived Ord on (datum, original_bytes): what collect's
+                                                    BTreeSet sees; to_bytes = original bytes when kept: what PlutusList's
+                                                    de-duplication keys on), PlutusList { elems, definite_encoding }:
                                                     new / add / extend / deduplicated_view / deduplicated_clone / to_set_bytes
      rust/src/serialization/plutus/plutus_data.rs   PlutusList::serialize_as_set (tag 258, definite/indefinite, dedup flag)
      rust/src/protocol_types/plutus/redeemers.rs    Redeemers { redeemers, serialization_format }, get_container_type
@@ -46,7 +47,8 @@ Definition pl_add (l : plutus_list) (d : pdata) : plutus_list := mk_plist (pl_el
 (* PlutusList::extend keeps it *)
 Definition pl_extend (l : plutus_list) (o : plutus_list) : plutus_list := mk_plist (pl_elems l ++ pl_elems o) (pl_definite l).
 
-(* first occurrence of every identity, in order (BTreeSet::insert returning true) *)
+(* first occurrence of every identity under the derived Ord, in order (BTreeSet<&PlutusData>::insert returning true:
+   PlutusWitnesses::collect) *)
 Fixpoint dedup_by {A} (key : A -> N) (seen : list N) (l : list A) : list A :=
   match l with
   | [] => []
@@ -54,7 +56,18 @@ Fixpoint dedup_by {A} (key : A -> N) (seen : list N) (l : list A) : list A :=
   end.
 Definition dedup_pdata (l : list pdata) : list pdata := dedup_by pd_id [] l.
 
-Definition pl_deduplicated_clone (l : plutus_list) : plutus_list := mk_plist (dedup_pdata (pl_elems l)) (pl_definite l).
+(* PlutusList::deduplicated_view / deduplicated_clone key on the bytes a datum is written as (to_bytes()): first
+   occurrence of every byte string, in order *)
+Fixpoint dedup_written_from (seen : list bytes) (l : list pdata) : list pdata :=
+  match l with
+  | [] => []
+  | x :: t =>
+      if existsb (bytes_eqb (pd_bytes x)) seen then dedup_written_from seen t
+      else x :: dedup_written_from (pd_bytes x :: seen) t
+  end.
+Definition dedup_written (l : list pdata) : list pdata := dedup_written_from [] l.
+
+Definition pl_deduplicated_clone (l : plutus_list) : plutus_list := mk_plist (dedup_written (pl_elems l)) (pl_definite l).
 
 Definition is_nil {A} (l : list A) : bool := match l with [] => true | _ => false end.
 
@@ -64,7 +77,7 @@ Definition pl_use_definite (l : plutus_list) : bool :=
 Definition enc_pdatas (l : list pdata) : bytes := flat_map pd_bytes l.
 
 Definition serialize_as_set_gen (count_dups : bool) (need_deduplication : bool) (l : plutus_list) : bytes :=
-  let written := if need_deduplication then dedup_pdata (pl_elems l) else pl_elems l in
+  let written := if need_deduplication then dedup_written (pl_elems l) else pl_elems l in
   let counted := if count_dups then pl_elems l else written in
   encode_head 6 258 ++
   (if pl_use_definite l then encode_head 4 (len counted) else [159]) ++
